@@ -17,7 +17,7 @@ pub fn run(ctx: &Ctx) -> Report {
     let mut rep = Report::new(
         "exploration",
         "case i: one generated tree (profile=i%14); a member named _sd / ... is planted at EVERY object position (and as a new \
-         single-member object appended to EVERY array) in turn, value kind rotating over 15 kinds (plain values and genuine-looking digest lists / placeholders), under 5 strategies (incl. Custom with an empty list) x 2 formats; \
+         single-member object appended to EVERY array) in turn, value kind rotating over 19 kinds (plain values and genuine-looking digest lists / placeholders), under 5 strategies (incl. Custom with an empty list) x 2 formats; \
          control = the unplanted tree and 9 near-miss plants must be issued. evaluations = issue_sd_jwt calls. Distinct = (claims \
          shape, plant position index, name, strategy, format); every planted case is non-trivial.",
         local,
@@ -120,6 +120,8 @@ fn one_case(ctx: &Ctx, case: u64, l: &mut Local) {
         json!("x"), json!(["d1", "d2"]), json!(null), json!({"a": 1}), json!(7), json!([]),
         json!([dg("a"), dg("b"), dg("c")]), json!([dg("only")]), json!(dg("bare")), json!({"...": dg("p")}), json!([{"...": dg("q")}]), json!(true),
         json!((0..40).map(|i| dg(&i.to_string())).collect::<Vec<_>>()), json!(""), json!([[dg("n")]]),
+        // long values with multi-byte characters at every byte offset around 48 of their JSON text
+        json!("\u{44f}".repeat(40)), json!(format!("{}\u{e9}{}", "a".repeat(46), "b".repeat(12))), json!([format!("{}\u{20ac}\u{1f600}{}", "a".repeat(43), "c".repeat(9))]), json!({"k": format!("{}\u{4e2d}\u{4e2d}\u{4e2d}", "a".repeat(40))}),
     ];
     let nv = values.len();
     let alg: Alg = ALL_ALGS[(case % 3) as usize];
@@ -167,6 +169,27 @@ fn one_case(ctx: &Ctx, case: u64, l: &mut Local) {
                         }),
                     }
                 }
+            }
+        }
+    }
+    // a reserved member in / below a nested object that also carries a string `_sd_alg` member (it looks
+    // like the payload of an already issued SD-JWT; it is user data all the same)
+    for name in ["_sd", "..."] {
+        for (k, emb) in [json!({"_sd_alg": "sha-256", name: ["x"]}), json!({"_sd_alg": "sha-256", "vc": {"deep": [{name: 1}]}}), json!([{"_sd_alg": "sha-256", "a": {name: "y"}}])].into_iter().enumerate() {
+            let mut planted = u.clone();
+            planted["embedded#c13e;"] = emb;
+            let st = &strategies[k % strategies.len()];
+            l.evals += 1;
+            l.count("position.next-to-a-string-_sd_alg");
+            match api::issue(&mut issuer, &planted, st, None, k % 2 == 0, FMTS[k % 2]) {
+                Outcome::Err(_) => l.count(&format!("plant.{name}.refused")),
+                other => l.violate(Violation {
+                    subcheck: "reserved-name-issued".into(),
+                    class: format!("{name} @ object with a string _sd_alg member"),
+                    observed: other.panic_signature().unwrap_or_else(|| "Ok (SD-JWT produced)".into()),
+                    case,
+                    detail: json!({"claims": planted, "strategy": st.describe()}),
+                }),
             }
         }
     }
